@@ -28,8 +28,13 @@ fn reconnect(name: String, params: Value) -> Scenario {
         let ms: [Option<u32>; 6] = [None, Some(16), Some(45), Some(46), Some(47), Some(200)];
         let m1 = ms[chz.choose(ms.len())];
         let m2 = ms[chz.choose(ms.len())];
-        let traffic1 = chz.choose(2) == 1;
+        let traffic1 = chz.choose(3);
         let kind = chz.choose(4);
+        // traffic1 == 2: a QoS 2 publish is left awaiting its PUBREC when the first connection ends;
+        // the PUBREC arrives on the second connection, whose limit then applies to the PUBREL
+        // (4 bytes in its short form): M2 in {3, 4, 6, ...}
+        let m2 = if traffic1 == 2 { [None, Some(3), Some(4), Some(6), Some(16)][chz.choose(5)] } else { m2 };
+        let m1 = if traffic1 == 2 { [None, Some(200)][chz.choose(2)] } else { m1 };
         let mut sys = Sys::new("C12", &name, chz);
         sys.params = params.clone();
         sys.m.check_client_acks = false;
@@ -38,11 +43,14 @@ fn reconnect(name: String, params: Value) -> Scenario {
         // 46 bytes: 1 + 1 + (2 + 1) + 2 (packet id) + 1 (property length) + 38
         let p46 = |q: u8| OpSpec::Publish(PublishSpec::simple(q, "t", &[b'y'; 38]));
         sys.bring_up(mp(m1));
-        if traffic1 && !sys.dead {
+        if traffic1 == 1 && !sys.dead {
             sys.apply(Ev::Start(p46(1)));
             if let Some(a) = sys.ack_for(0, 0, "") {
                 sys.apply(Ev::Deliver(a));
             }
+        }
+        if traffic1 == 2 && !sys.dead {
+            sys.apply(Ev::Start(OpSpec::Publish(PublishSpec::simple(2, "t", &[b'q'; 8]))));
         }
         if !sys.dead {
             sys.apply(Ev::Eof);
@@ -63,6 +71,13 @@ fn reconnect(name: String, params: Value) -> Scenario {
         }
         if !sys.dead {
             sys.start_run();
+        }
+        if traffic1 == 2 && !sys.dead {
+            for _ in 0..2 {
+                if let Some(a) = sys.ack_for(0, 0, "") {
+                    sys.apply(Ev::Deliver(a));
+                }
+            }
         }
         if !sys.dead {
             let spec = match kind {
